@@ -118,8 +118,6 @@ def units(tier):
                 for k in ends:
                     for op in ("ins(", "ins)"):
                         rot += 1
-                        if q and rot % 2 and k != len(l):
-                            continue
                         us.append(dict(h="paren", prog=p, line=li, col=k, op=op, std="f2008" if (f08 or rot % 2) else "f2003", cost=1))
             pos = _paren_positions(l)
             if not pos:
@@ -128,9 +126,8 @@ def units(tier):
                 rot += 1
                 std = "f2008" if (f08 or rot % 2) else "f2003"
                 us.append(dict(h="paren", prog=p, line=li, col=k, op="del", std=std, cost=1))
-                if not q or rot % 3 == 0:
-                    us.append(dict(h="paren", prog=p, line=li, col=k, op="ins(", std=std, cost=1))
-                    us.append(dict(h="paren", prog=p, line=li, col=k + 1, op="ins)", std=std, cost=1))
+                us.append(dict(h="paren", prog=p, line=li, col=k, op="ins(", std=std, cost=1))
+                us.append(dict(h="paren", prog=p, line=li, col=k + 1, op="ins)", std=std, cost=1))
     return us
 
 
